@@ -129,6 +129,7 @@ def run(chk: core.Check, pid: str, backend: str | None = None, quick_models: int
     chk.sample({"model_text": modelcase.render_text(recs[0]["blocks"]), "input": recs[0]["cases"][0]["input"],
                 "expected": recs[0]["cases"][0]["expect"]})
     report(chk, pid, bad, prof["tags"], backend)
+    chk.last_structural_texts = [modelcase.render_text(r["blocks"]) for r in recs[:40]]
     return stats
 
 
